@@ -88,6 +88,23 @@ CHECKS = {
              "(remove_from_inventory) is trusted to touch only this connection; schedules are not modelled. 'Repeated "
              "delivery has no effect' is the known-id path.",
         technique=PROOF_TECH + "; path contracts over ghost state (committed blocks, relayed sequence)"),
+    'C12': dict(
+        category='proof', design_ref='6/C12',
+        text="Proved from source: the candidate the miner assembles is built from the node's current head and pool; its "
+             "height is head+1 and equals the reward's height; its timestamp is max(clock, head.timestamp+1), hence later "
+             "than its parent's for every clock value; its target is calc_target with exactly the arguments the validator "
+             "uses; its reward has one output worth exactly subsidy(height) + fees(pool, head's unspent set), paid to the "
+             "miner's key. For a winning hash the found-block handler returns only after CoinState.add_block validated "
+             "the block, installs THAT state in the chain manager (it then contains the block), commits the block to "
+             "the store and appends it to the relayed sequence; for a losing hash nothing changes; on an exception the "
+             "served state is either the old one or the validated new one. The evidence recomputed by the validator is "
+             "the same function of the same arguments as the miner's (construct_pow_evidence = after_scrypt o scrypt).",
+        note="'Passes the node's own full validation' is proved in the direction 'what was installed was validated'; that "
+             "the validators never refuse an assembled block (for admissible pools, clock within 30 s) is covered by the "
+             "bounded run of the real handlers reported under coverage.bounded, not by proof. The miner worker is "
+             "assumed to return scrypt(summary, height). Interleavings with the networking thread between the two "
+             "handler calls are not modelled.",
+        technique=PROOF_TECH + "; plus a bounded run of the real handlers for the 'never refused' direction"),
     'C13': dict(
         category='proof', design_ref='6/C13',
         text="The pool invariant - every pending transaction passed the stand-alone rules and is valid in the ledger "
